@@ -33,6 +33,30 @@ impl Identity for SId {
     }
 }
 
+/// a broadcast handler that accepts every item and never invalidates anything
+pub struct KeepAll;
+pub struct NoKey;
+impl foca::Invalidates for NoKey {
+    fn invalidates(&self, _other: &Self) -> bool {
+        false
+    }
+}
+#[derive(Debug)]
+pub struct NeverErr;
+impl std::fmt::Display for NeverErr {
+    fn fmt(&self, f: &mut std::fmt::Formatter<'_>) -> std::fmt::Result {
+        write!(f, "never")
+    }
+}
+impl std::error::Error for NeverErr {}
+impl foca::BroadcastHandler<SId> for KeepAll {
+    type Key = NoKey;
+    type Error = NeverErr;
+    fn receive_item(&mut self, _data: &[u8], _sender: Option<&SId>) -> Result<Option<Self::Key>, Self::Error> {
+        Ok(Some(NoKey))
+    }
+}
+
 struct Drv {
     stdin: std::process::ChildStdin,
     stdout: BufReader<std::process::ChildStdout>,
@@ -206,7 +230,16 @@ where
         cfg.max_packet_size = NonZeroUsize::new(mps).unwrap();
         cfg.num_indirect_probes = NonZeroUsize::new(3).unwrap();
         cfg.max_transmissions = NonZeroU8::new(1 + g.below(5) as u8).unwrap();
-        let mut foca = Foca::new(me, cfg, crate::vid::VRng::new(g.next()), codec.clone());
+        let mut foca = Foca::with_custom_broadcast(me, cfg, crate::vid::VRng::new(g.next()), codec.clone(), KeepAll);
+        // half of the runs have custom broadcasts pending (they share the packet with the feed / gossip)
+        let with_items = g.below(2) == 0;
+        if with_items {
+            for _ in 0..1 + g.below(4) {
+                let n = 1 + g.below(40) as usize;
+                let item: Vec<u8> = (0..n).map(|_| g.below(256) as u8).collect();
+                let _ = foca.add_broadcast(&item);
+            }
+        }
         let mut rt = AccumulatingRuntime::new();
         let members: Vec<Member<SId>> = others
             .iter()
@@ -268,8 +301,27 @@ where
                     }
                     if !ok {
                         out.hit("C20:member-section-undecodable(partial-encode-left-behind?)", J::s(ctx));
-                    } else if !cur.is_empty() {
-                        out.hit("C20:trailing-junk-after-members", J::s(ctx));
+                    } else {
+                        // the rest must be whole length-prefixed non-empty custom items (only when some are pending)
+                        let mut bad_tail = false;
+                        while !cur.is_empty() {
+                            if cur.len() < 3 {
+                                bad_tail = true;
+                                break;
+                            }
+                            let l = u16::from_be_bytes([cur[0], cur[1]]) as usize;
+                            if l == 0 || cur.len() < 2 + l {
+                                bad_tail = true;
+                                break;
+                            }
+                            cur = &cur[2 + l..];
+                            if !with_items {
+                                bad_tail = true;
+                            }
+                        }
+                        if bad_tail {
+                            out.hit("C20:trailing-junk-after-members", J::s(ctx));
+                        }
                     }
                 }
                 _ => {
